@@ -2,6 +2,7 @@ CONSTANTS
   VNeg = 1
   VMax = 2
   MaxLen = 4
+  MaxIdle = 2
   AllowKF = TRUE
   Classes = {"BoolHigh", "BoolLow", "Floor", "Ceil", "WhenOutsideBand", "OutBand", "WhenChanged"}
 SPECIFICATION Spec
